@@ -50,6 +50,12 @@ pub struct Trip {
     /// overrides (cols, rows): a few very large arrays (size-dependent fast paths)
     #[serde(default)]
     pub big: Option<(u32, u32)>,
+    /// structural steps applied to the array before it is serialised (spare capacity, a buffer
+    /// that was shifted around, dimensions exchanged): 0 push_row, 1 pop_row, 2 insert_col(0),
+    /// 3 remove_col(last), 4 insert_row(0), 5 remove_row(0), 6 swap_dimensions, 7 reserve(64),
+    /// 8 shrink_to_fit, 9 clear then push two rows
+    #[serde(default)]
+    pub prep: Vec<u8>,
 }
 
 fn decode<T: DeserializeOwned>(text: &str, tr: Transport) -> Result<Result<TooDee<T>, String>, String> {
@@ -129,6 +135,44 @@ fn build<T: Clone>(cols: usize, rows: usize, f: impl Fn(usize) -> T) -> TooDee<T
     TooDee::from_vec(c, r, (0..c * r).map(f).collect())
 }
 
+/// apply the preparation steps (all valid by construction; see `Trip::prep`)
+fn prepare<T: Clone>(t: &mut TooDee<T>, prep: &[u8], f: impl Fn(usize) -> T) {
+    let mut n = 1000;
+    let mut fresh = |k: usize| -> Vec<T> {
+        let v: Vec<T> = (n..n + k).map(&f).collect();
+        n += k;
+        v
+    };
+    for p in prep.iter().take(12) {
+        let (c, r) = t.size();
+        match p % 10 {
+            0 => t.push_row(fresh(if c == 0 { 2 } else { c })),
+            1 => drop(t.pop_row()),
+            2 => t.insert_col(0, fresh(if r == 0 { 3 } else { r })),
+            3 => drop(t.pop_col()),
+            4 => t.insert_row(0, fresh(if c == 0 { 1 } else { c })),
+            5 => {
+                if r > 0 {
+                    drop(t.remove_row(0));
+                }
+            }
+            6 => t.swap_dimensions(),
+            7 => t.reserve(64),
+            8 => t.shrink_to_fit(),
+            _ => {
+                t.clear();
+                t.push_row(fresh(3));
+                t.push_row(fresh(3));
+            }
+        }
+    }
+}
+
+fn roundtrip_prepared<T: Serialize + DeserializeOwned + PartialEq + Debug + Clone>(mut t: TooDee<T>, prep: &[u8], f: impl Fn(usize) -> T, tr: Transport) -> Verdict {
+    prepare(&mut t, prep, f);
+    roundtrip(&t, tr)
+}
+
 pub fn exec_trip(k: &Trip, ctx: &mut Ctx) -> Verdict {
     let (cols, rows) = match k.big {
         Some((c, r)) => (c as usize, r as usize),
@@ -166,13 +210,17 @@ pub fn exec_trip(k: &Trip, ctx: &mut Ctx) -> Verdict {
         return Ok(());
     }
     match k.elem {
-        DocElem::U32 => roundtrip(&build(cols, rows, |i| int(i) as u32), k.transport)?,
-        DocElem::I64 => roundtrip(&build(cols, rows, |i| int(i)), k.transport)?,
-        DocElem::Str => roundtrip(&build(cols, rows, |i| st(i)), k.transport)?,
-        DocElem::OptU32 => roundtrip(&build(cols, rows, |i| if int(i) % 3 == 0 { None } else { Some(int(i) as u32) }), k.transport)?,
-        DocElem::Bytes => roundtrip(&build(cols, rows, |i| st(i).into_bytes()), k.transport)?,
+        DocElem::U32 => roundtrip_prepared(build(cols, rows, |i| int(i) as u32), &k.prep, |i| int(i) as u32, k.transport)?,
+        DocElem::I64 => roundtrip_prepared(build(cols, rows, |i| int(i)), &k.prep, |i| int(i), k.transport)?,
+        DocElem::Str => roundtrip_prepared(build(cols, rows, |i| st(i)), &k.prep, |i| st(i), k.transport)?,
+        DocElem::OptU32 => roundtrip_prepared(build(cols, rows, |i| if int(i) % 3 == 0 { None } else { Some(int(i) as u32) }), &k.prep, |i| if int(i) % 3 == 0 { None } else { Some(int(i) as u32) }, k.transport)?,
+        DocElem::Bytes => roundtrip_prepared(build(cols, rows, |i| st(i).into_bytes()), &k.prep, |i| st(i).into_bytes(), k.transport)?,
         DocElem::Nested => roundtrip(&build(cols, rows, |i| build((int(i).unsigned_abs() % 3) as usize, (i % 3) as usize, |j| (i * 10 + j) as u32)), k.transport)?,
-        DocElem::Unit => roundtrip(&build(cols, rows, |_| ()), k.transport)?,
+        DocElem::Unit => roundtrip_prepared(build(cols, rows, |_| ()), &k.prep, |_| (), k.transport)?,
+    }
+    if !k.prep.is_empty() {
+        ctx.class("array-built-by-a-structural-history");
+        ctx.nt();
     }
     let nonempty = cols > 0 && rows > 0;
     if nonempty && matches!(k.transport, Transport::Reader | Transport::Value) {
@@ -225,35 +273,45 @@ impl Prop for C18 {
                         if (cols == 0) != (rows == 0) {
                             continue;
                         }
-                        emit(Trip { elem, cols, rows, ints: vec![0, -1, 7, i64::MAX, i64::MIN, 4294967295, 3], strs: vec!["".into(), "a\"b".into(), "\\".into(), "\u{0}\n".into(), "é😀".into()], view: None, transport: tr, big: None });
+                        emit(Trip { elem, cols, rows, ints: vec![0, -1, 7, i64::MAX, i64::MIN, 4294967295, 3], strs: vec!["".into(), "a\"b".into(), "\\".into(), "\u{0}\n".into(), "é😀".into()], view: None, transport: tr, big: None, prep: vec![] });
                     }
                 }
             }
         }
         // a few large arrays and views around power-of-two cell counts (size-dependent fast paths)
+        // arrays that went through structural operations before being serialised
+        for tr in [Transport::Str, Transport::Slice, Transport::Reader, Transport::Value] {
+            for elem in [DocElem::U32, DocElem::Str, DocElem::Unit] {
+                for (cols, rows) in [(0u8, 0u8), (1, 1), (2, 3), (4, 2)] {
+                    for prep in [vec![0u8], vec![1], vec![2], vec![3], vec![4, 5], vec![5, 0], vec![6], vec![7, 8], vec![9], vec![3, 3, 3, 3], vec![1, 1, 1], vec![2, 6, 0], vec![3, 2, 1, 0, 6, 5]] {
+                        emit(Trip { elem, cols, rows, ints: vec![3, 1, 4, 1, 5, 9, 2, 6], strs: vec!["x".into(), "\"".into(), "".into()], view: None, transport: tr, big: None, prep });
+                    }
+                }
+            }
+        }
         // every transport with more than 2^18 u32 cells / 2^17 i64 cells / 2^16 strings, and arrays of
         // `()` with a dimension beyond 65535
         for tr in [Transport::Str, Transport::Slice, Transport::Reader, Transport::Value] {
-            emit(Trip { elem: DocElem::U32, cols: 1, rows: 1, ints: vec![1, 2, 3, 70000], strs: vec![], view: None, transport: tr, big: Some((600, 600)) });
-            emit(Trip { elem: DocElem::I64, cols: 1, rows: 1, ints: vec![-1, 2, i64::MAX], strs: vec![], view: None, transport: tr, big: Some((300, 450)) });
-            emit(Trip { elem: DocElem::Str, cols: 1, rows: 1, ints: vec![], strs: vec!["a".into(), "".into(), "\\u".into()], view: None, transport: tr, big: Some((260, 255)) });
-            emit(Trip { elem: DocElem::OptU32, cols: 1, rows: 1, ints: vec![0, 1, 2, 3, 4], strs: vec![], view: None, transport: tr, big: Some((1, 140_000)) });
-            emit(Trip { elem: DocElem::Unit, cols: 1, rows: 1, ints: vec![], strs: vec![], view: None, transport: tr, big: Some((70_000, 1)) });
-            emit(Trip { elem: DocElem::Unit, cols: 1, rows: 1, ints: vec![], strs: vec![], view: None, transport: tr, big: Some((2, 65_536)) });
-            emit(Trip { elem: DocElem::Unit, cols: 1, rows: 1, ints: vec![], strs: vec![], view: None, transport: tr, big: Some((65_537, 3)) });
-            emit(Trip { elem: DocElem::U32, cols: 1, rows: 1, ints: vec![6, 5], strs: vec![], view: Some(([1, 1, 0, 1], tr == Transport::Value)), transport: tr, big: Some((70_001, 4)) });
+            emit(Trip { elem: DocElem::U32, cols: 1, rows: 1, ints: vec![1, 2, 3, 70000], strs: vec![], view: None, transport: tr, big: Some((600, 600)), prep: vec![] });
+            emit(Trip { elem: DocElem::I64, cols: 1, rows: 1, ints: vec![-1, 2, i64::MAX], strs: vec![], view: None, transport: tr, big: Some((300, 450)), prep: vec![] });
+            emit(Trip { elem: DocElem::Str, cols: 1, rows: 1, ints: vec![], strs: vec!["a".into(), "".into(), "\\u".into()], view: None, transport: tr, big: Some((260, 255)), prep: vec![] });
+            emit(Trip { elem: DocElem::OptU32, cols: 1, rows: 1, ints: vec![0, 1, 2, 3, 4], strs: vec![], view: None, transport: tr, big: Some((1, 140_000)), prep: vec![] });
+            emit(Trip { elem: DocElem::Unit, cols: 1, rows: 1, ints: vec![], strs: vec![], view: None, transport: tr, big: Some((70_000, 1)), prep: vec![] });
+            emit(Trip { elem: DocElem::Unit, cols: 1, rows: 1, ints: vec![], strs: vec![], view: None, transport: tr, big: Some((2, 65_536)), prep: vec![] });
+            emit(Trip { elem: DocElem::Unit, cols: 1, rows: 1, ints: vec![], strs: vec![], view: None, transport: tr, big: Some((65_537, 3)), prep: vec![] });
+            emit(Trip { elem: DocElem::U32, cols: 1, rows: 1, ints: vec![6, 5], strs: vec![], view: Some(([1, 1, 0, 1], tr == Transport::Value)), transport: tr, big: Some((70_001, 4)), prep: vec![] });
         }
         for (i, (c, r)) in [(600u32, 450u32), (520, 505), (257, 256), (1030, 64)].into_iter().enumerate() {
             let tr = [Transport::Str, Transport::Slice, Transport::Reader, Transport::Value][i % 4];
-            emit(Trip { elem: DocElem::U32, cols: 1, rows: 1, ints: vec![1, 2, 3], strs: vec![], view: None, transport: tr, big: Some((c, r)) });
-            emit(Trip { elem: DocElem::U32, cols: 1, rows: 1, ints: vec![4, 5, 6, 7], strs: vec![], view: Some(([0, 0, 0, 0], false)), transport: [Transport::Reader, Transport::Str, Transport::Slice, Transport::Value][i % 4], big: Some((c, r)) });
-            emit(Trip { elem: DocElem::U32, cols: 1, rows: 1, ints: vec![9, 8], strs: vec![], view: Some(([1, 0, 0, 1], true)), transport: tr, big: Some((c - 1, r)) });
+            emit(Trip { elem: DocElem::U32, cols: 1, rows: 1, ints: vec![1, 2, 3], strs: vec![], view: None, transport: tr, big: Some((c, r)), prep: vec![] });
+            emit(Trip { elem: DocElem::U32, cols: 1, rows: 1, ints: vec![4, 5, 6, 7], strs: vec![], view: Some(([0, 0, 0, 0], false)), transport: [Transport::Reader, Transport::Str, Transport::Slice, Transport::Value][i % 4], big: Some((c, r)), prep: vec![] });
+            emit(Trip { elem: DocElem::U32, cols: 1, rows: 1, ints: vec![9, 8], strs: vec![], view: Some(([1, 0, 0, 1], true)), transport: tr, big: Some((c - 1, r)), prep: vec![] });
         }
         for (i, (cols, rows)) in [(255u8, 255u8), (255, 129), (128, 64), (65, 64)].into_iter().enumerate() {
             let tr = [Transport::Str, Transport::Slice, Transport::Reader, Transport::Value][i % 4];
-            emit(Trip { elem: DocElem::U32, cols, rows, ints: vec![1, 2, 3], strs: vec![], view: None, transport: tr, big: None });
-            emit(Trip { elem: DocElem::U32, cols, rows, ints: vec![4, 5, 6, 7], strs: vec![], view: Some(([0, 0, 0, 0], false)), transport: [Transport::Reader, Transport::Str, Transport::Slice, Transport::Value][i % 4], big: None });
-            emit(Trip { elem: DocElem::U32, cols: cols - 1, rows, ints: vec![9, 8], strs: vec![], view: Some(([1, 0, 0, 1], true)), transport: tr, big: None });
+            emit(Trip { elem: DocElem::U32, cols, rows, ints: vec![1, 2, 3], strs: vec![], view: None, transport: tr, big: None, prep: vec![] });
+            emit(Trip { elem: DocElem::U32, cols, rows, ints: vec![4, 5, 6, 7], strs: vec![], view: Some(([0, 0, 0, 0], false)), transport: [Transport::Reader, Transport::Str, Transport::Slice, Transport::Value][i % 4], big: None, prep: vec![] });
+            emit(Trip { elem: DocElem::U32, cols: cols - 1, rows, ints: vec![9, 8], strs: vec![], view: Some(([1, 0, 0, 1], true)), transport: tr, big: None, prep: vec![] });
         }
         for tr in [Transport::Str, Transport::Slice, Transport::Reader, Transport::Value] {
             for mutable in [false, true] {
@@ -263,7 +321,7 @@ impl Prop for C18 {
                             for t in 0u8..3 {
                                 for r in 0u8..3 {
                                     for b in 0u8..2 {
-                                        emit(Trip { elem: DocElem::U32, cols, rows, ints: vec![5, 9, 100, 7, 3, 1, 8], strs: vec![], view: Some(([l, t, r, b], mutable)), transport: tr, big: None });
+                                        emit(Trip { elem: DocElem::U32, cols, rows, ints: vec![5, 9, 100, 7, 3, 1, 8], strs: vec![], view: Some(([l, t, r, b], mutable)), transport: tr, big: None, prep: vec![] });
                                     }
                                 }
                             }
@@ -276,14 +334,15 @@ impl Prop for C18 {
     fn strategy(_t: Tier) -> BoxedStrategy<Trip> {
         let shape = prop_oneof![6 => (0u8..=6, 0u8..=6), 1 => (1u8..=1, 1u8..=20), 1 => (1u8..=20, 1u8..=1)];
         let elem = prop_oneof![1 => Just(DocElem::U32), 1 => Just(DocElem::I64), 3 => Just(DocElem::Str), 1 => Just(DocElem::OptU32), 1 => Just(DocElem::Bytes), 1 => Just(DocElem::Nested), 1 => Just(DocElem::Unit)];
-        (elem, shape, prop::collection::vec(any::<i64>(), 0..8), prop::collection::vec(nasty_string(), 0..6), prop::option::weighted(0.3, (small_margin(), any::<bool>())), transport())
-            .prop_map(|(elem, (cols, rows), ints, strs, view, transport)| {
+        (elem, shape, prop::collection::vec(any::<i64>(), 0..8), prop::collection::vec(nasty_string(), 0..6), prop::option::weighted(0.3, (small_margin(), any::<bool>())), transport(), prop_oneof![3 => Just(vec![]), 1 => prop::collection::vec(0u8..10, 1..8)])
+            .prop_map(|(elem, (cols, rows), ints, strs, view, transport, prep)| {
                 let (cols, rows) = if view.is_none() && (cols == 0 || rows == 0) { (0, 0) } else { (cols, rows) };
-                Trip { elem, cols, rows, ints, strs, view, transport, big: None }
+                Trip { elem, cols, rows, ints, strs, view, transport, big: None, prep }
             })
             .boxed()
     }
     fn fuzz_sanitize(k: &mut Trip) -> bool {
+        k.prep.truncate(12);
         // (found by the thorough fuzz sweep at seed 1: an unbounded override made the HARNESS
         // allocate 70 GB; see DESIGN section 9)
         if let Some((c, r)) = k.big {
@@ -312,7 +371,7 @@ impl Prop for C18 {
         exec_trip(k, ctx)
     }
     fn essential_classes() -> &'static [&'static str] {
-        &["non-empty-via-reader-or-value", "empty-array", "strided-view", "view_mut", "view", "string-needing-escapes", "Nested", "Str", "Reader", "Value", "Slice"]
+        &["non-empty-via-reader-or-value", "empty-array", "strided-view", "view_mut", "view", "string-needing-escapes", "Nested", "Str", "Reader", "Value", "Slice", "array-built-by-a-structural-history"]
     }
 }
 
